@@ -32,69 +32,80 @@ mod opt_cols__run;
 mod opt_cols__init;
 mod same_gen__pari;
 mod same_gen__u64;
-mod two_inputs__to;
-mod two_inputs__srcto;
-mod two_inputs__permpar;
-mod ternary__par;
-mod ternary__strpar;
-mod bound_mix__str;
-mod join_chain__ren;
-mod reach__ser;
-mod self_join3__ser;
-mod lag_right__perm1;
-mod lag_left__par;
-mod lag_three__topar;
-mod lag_mid__str;
-mod multi_head_rec__ser;
-mod sp_dual__par;
-mod sp_dual__src1;
-mod sp_dual__perm2;
-mod longest_capped__ser;
-mod set_reach__to;
-mod set_reach__srcto;
-mod bset__to;
-mod opt_lat__par;
-mod lat_two_keys__ser;
-mod lat_val_bound__ser;
-mod lat_input__run;
-mod lat_input__init;
-mod count_paths__run;
-mod count_paths__init;
-mod neg_basic__run;
-mod neg_basic__init;
-mod neg_basic__exppar;
-mod agg_depth__topar;
-mod agg_user__pari;
-mod agg_bound_mix__pari;
-mod agg_empty_rel__pari;
-mod disj__ser;
-mod disj__src0;
-mod disj__perm1;
-mod disj_nested__pari;
-mod rep_expr__ser;
-mod multi_head_disj__exp;
-mod mac_basic__par;
-mod mac_basic__src1;
-mod mac_basic__exppar;
-mod mac_nested__pari;
-mod mac_disj__ser;
-mod rnd_core_02__ser;
-mod rnd_core_04__pari;
-mod rnd_core_07__par;
-mod rnd_core_10__ser;
-mod rnd_core_12__pari;
-mod rnd_core_15__par;
-mod rnd_core_18__ser;
-mod rnd_core_20__pari;
-mod rnd_core_23__par;
-mod rnd_core_26__ser;
-mod rnd_core_28__pari;
-mod rnd_agg_01__par;
-mod rnd_agg_04__ser;
-mod rnd_agg_06__pari;
-mod rnd_agg_09__par;
-mod rnd_agg_12__ser;
-mod rnd_agg_14__pari;
+mod not_reorderable__perm2;
+mod pre_join_rec__perm1;
+mod two_inputs__topar;
+mod two_inputs__redecl;
+mod two_inputs__str;
+mod ternary__pari;
+mod bound_mix__ser;
+mod bound_mix__u64;
+mod join_chain__permpar;
+mod reach__par;
+mod self_join3__par;
+mod lag_right__perm2;
+mod lag_left__pari;
+mod lag_mid__ser;
+mod lag_mid__u64;
+mod multi_head_rec__par;
+mod sp_dual__pari;
+mod sp_dual__src2;
+mod sp_dual__ren;
+mod longest_capped__par;
+mod set_reach__topar;
+mod set_reach__redecl;
+mod bset__topar;
+mod opt_lat__pari;
+mod lat_two_keys__par;
+mod lat_pre_join__par;
+mod lat_val_bound__par;
+mod lat_input__mrt;
+mod lat_input__runpar;
+mod count_paths__mrt;
+mod count_paths__runpar;
+mod neg_basic__mrt;
+mod neg_basic__runpar;
+mod agg_minmaxsum__ser;
+mod agg_lattice__ser;
+mod neg_rec_after__ser;
+mod agg_empty__ser;
+mod agg_empty_rel__to;
+mod agg_pre_join__par;
+mod disj__mrt;
+mod disj__runpar;
+mod disj_nested__ser;
+mod pat_args__exp;
+mod multi_head_disj__par;
+mod neg_in_disj__exppar;
+mod mac_basic__gen;
+mod mac_basic__srcpar;
+mod mac_nested__ser;
+mod mac_gensym_disj__exp;
+mod rnd_core_01__par;
+mod rnd_core_04__ser;
+mod rnd_core_06__pari;
+mod rnd_core_09__par;
+mod rnd_core_12__ser;
+mod rnd_core_14__pari;
+mod rnd_core_17__par;
+mod rnd_core_20__ser;
+mod rnd_core_22__pari;
+mod rnd_core_25__par;
+mod rnd_core_28__ser;
+mod rnd_core_30__pari;
+mod rnd_agg_03__par;
+mod rnd_agg_06__ser;
+mod rnd_agg_08__pari;
+mod rnd_agg_11__par;
+mod rnd_agg_14__ser;
+mod rnd_prec_01__pari;
+mod rnd_prec_03__ser;
+mod rnd_prec_04__to;
+mod rnd_prec_06__par;
+mod rnd_prec_07__topar;
+mod rnd_prea_01__pari;
+mod rnd_prea_04__par;
+mod rnd_prea_07__ser;
 
 fn lookup(name: &str) -> fn() -> Box<dyn Driven> {
    match name {
@@ -122,69 +133,80 @@ fn lookup(name: &str) -> fn() -> Box<dyn Driven> {
       "opt_cols__init" => opt_cols__init::make,
       "same_gen__pari" => same_gen__pari::make,
       "same_gen__u64" => same_gen__u64::make,
-      "two_inputs__to" => two_inputs__to::make,
-      "two_inputs__srcto" => two_inputs__srcto::make,
-      "two_inputs__permpar" => two_inputs__permpar::make,
-      "ternary__par" => ternary__par::make,
-      "ternary__strpar" => ternary__strpar::make,
-      "bound_mix__str" => bound_mix__str::make,
-      "join_chain__ren" => join_chain__ren::make,
-      "reach__ser" => reach__ser::make,
-      "self_join3__ser" => self_join3__ser::make,
-      "lag_right__perm1" => lag_right__perm1::make,
-      "lag_left__par" => lag_left__par::make,
-      "lag_three__topar" => lag_three__topar::make,
-      "lag_mid__str" => lag_mid__str::make,
-      "multi_head_rec__ser" => multi_head_rec__ser::make,
-      "sp_dual__par" => sp_dual__par::make,
-      "sp_dual__src1" => sp_dual__src1::make,
-      "sp_dual__perm2" => sp_dual__perm2::make,
-      "longest_capped__ser" => longest_capped__ser::make,
-      "set_reach__to" => set_reach__to::make,
-      "set_reach__srcto" => set_reach__srcto::make,
-      "bset__to" => bset__to::make,
-      "opt_lat__par" => opt_lat__par::make,
-      "lat_two_keys__ser" => lat_two_keys__ser::make,
-      "lat_val_bound__ser" => lat_val_bound__ser::make,
-      "lat_input__run" => lat_input__run::make,
-      "lat_input__init" => lat_input__init::make,
-      "count_paths__run" => count_paths__run::make,
-      "count_paths__init" => count_paths__init::make,
-      "neg_basic__run" => neg_basic__run::make,
-      "neg_basic__init" => neg_basic__init::make,
-      "neg_basic__exppar" => neg_basic__exppar::make,
-      "agg_depth__topar" => agg_depth__topar::make,
-      "agg_user__pari" => agg_user__pari::make,
-      "agg_bound_mix__pari" => agg_bound_mix__pari::make,
-      "agg_empty_rel__pari" => agg_empty_rel__pari::make,
-      "disj__ser" => disj__ser::make,
-      "disj__src0" => disj__src0::make,
-      "disj__perm1" => disj__perm1::make,
-      "disj_nested__pari" => disj_nested__pari::make,
-      "rep_expr__ser" => rep_expr__ser::make,
-      "multi_head_disj__exp" => multi_head_disj__exp::make,
-      "mac_basic__par" => mac_basic__par::make,
-      "mac_basic__src1" => mac_basic__src1::make,
-      "mac_basic__exppar" => mac_basic__exppar::make,
-      "mac_nested__pari" => mac_nested__pari::make,
-      "mac_disj__ser" => mac_disj__ser::make,
-      "rnd_core_02__ser" => rnd_core_02__ser::make,
-      "rnd_core_04__pari" => rnd_core_04__pari::make,
-      "rnd_core_07__par" => rnd_core_07__par::make,
-      "rnd_core_10__ser" => rnd_core_10__ser::make,
-      "rnd_core_12__pari" => rnd_core_12__pari::make,
-      "rnd_core_15__par" => rnd_core_15__par::make,
-      "rnd_core_18__ser" => rnd_core_18__ser::make,
-      "rnd_core_20__pari" => rnd_core_20__pari::make,
-      "rnd_core_23__par" => rnd_core_23__par::make,
-      "rnd_core_26__ser" => rnd_core_26__ser::make,
-      "rnd_core_28__pari" => rnd_core_28__pari::make,
-      "rnd_agg_01__par" => rnd_agg_01__par::make,
-      "rnd_agg_04__ser" => rnd_agg_04__ser::make,
-      "rnd_agg_06__pari" => rnd_agg_06__pari::make,
-      "rnd_agg_09__par" => rnd_agg_09__par::make,
-      "rnd_agg_12__ser" => rnd_agg_12__ser::make,
-      "rnd_agg_14__pari" => rnd_agg_14__pari::make,
+      "not_reorderable__perm2" => not_reorderable__perm2::make,
+      "pre_join_rec__perm1" => pre_join_rec__perm1::make,
+      "two_inputs__topar" => two_inputs__topar::make,
+      "two_inputs__redecl" => two_inputs__redecl::make,
+      "two_inputs__str" => two_inputs__str::make,
+      "ternary__pari" => ternary__pari::make,
+      "bound_mix__ser" => bound_mix__ser::make,
+      "bound_mix__u64" => bound_mix__u64::make,
+      "join_chain__permpar" => join_chain__permpar::make,
+      "reach__par" => reach__par::make,
+      "self_join3__par" => self_join3__par::make,
+      "lag_right__perm2" => lag_right__perm2::make,
+      "lag_left__pari" => lag_left__pari::make,
+      "lag_mid__ser" => lag_mid__ser::make,
+      "lag_mid__u64" => lag_mid__u64::make,
+      "multi_head_rec__par" => multi_head_rec__par::make,
+      "sp_dual__pari" => sp_dual__pari::make,
+      "sp_dual__src2" => sp_dual__src2::make,
+      "sp_dual__ren" => sp_dual__ren::make,
+      "longest_capped__par" => longest_capped__par::make,
+      "set_reach__topar" => set_reach__topar::make,
+      "set_reach__redecl" => set_reach__redecl::make,
+      "bset__topar" => bset__topar::make,
+      "opt_lat__pari" => opt_lat__pari::make,
+      "lat_two_keys__par" => lat_two_keys__par::make,
+      "lat_pre_join__par" => lat_pre_join__par::make,
+      "lat_val_bound__par" => lat_val_bound__par::make,
+      "lat_input__mrt" => lat_input__mrt::make,
+      "lat_input__runpar" => lat_input__runpar::make,
+      "count_paths__mrt" => count_paths__mrt::make,
+      "count_paths__runpar" => count_paths__runpar::make,
+      "neg_basic__mrt" => neg_basic__mrt::make,
+      "neg_basic__runpar" => neg_basic__runpar::make,
+      "agg_minmaxsum__ser" => agg_minmaxsum__ser::make,
+      "agg_lattice__ser" => agg_lattice__ser::make,
+      "neg_rec_after__ser" => neg_rec_after__ser::make,
+      "agg_empty__ser" => agg_empty__ser::make,
+      "agg_empty_rel__to" => agg_empty_rel__to::make,
+      "agg_pre_join__par" => agg_pre_join__par::make,
+      "disj__mrt" => disj__mrt::make,
+      "disj__runpar" => disj__runpar::make,
+      "disj_nested__ser" => disj_nested__ser::make,
+      "pat_args__exp" => pat_args__exp::make,
+      "multi_head_disj__par" => multi_head_disj__par::make,
+      "neg_in_disj__exppar" => neg_in_disj__exppar::make,
+      "mac_basic__gen" => mac_basic__gen::make,
+      "mac_basic__srcpar" => mac_basic__srcpar::make,
+      "mac_nested__ser" => mac_nested__ser::make,
+      "mac_gensym_disj__exp" => mac_gensym_disj__exp::make,
+      "rnd_core_01__par" => rnd_core_01__par::make,
+      "rnd_core_04__ser" => rnd_core_04__ser::make,
+      "rnd_core_06__pari" => rnd_core_06__pari::make,
+      "rnd_core_09__par" => rnd_core_09__par::make,
+      "rnd_core_12__ser" => rnd_core_12__ser::make,
+      "rnd_core_14__pari" => rnd_core_14__pari::make,
+      "rnd_core_17__par" => rnd_core_17__par::make,
+      "rnd_core_20__ser" => rnd_core_20__ser::make,
+      "rnd_core_22__pari" => rnd_core_22__pari::make,
+      "rnd_core_25__par" => rnd_core_25__par::make,
+      "rnd_core_28__ser" => rnd_core_28__ser::make,
+      "rnd_core_30__pari" => rnd_core_30__pari::make,
+      "rnd_agg_03__par" => rnd_agg_03__par::make,
+      "rnd_agg_06__ser" => rnd_agg_06__ser::make,
+      "rnd_agg_08__pari" => rnd_agg_08__pari::make,
+      "rnd_agg_11__par" => rnd_agg_11__par::make,
+      "rnd_agg_14__ser" => rnd_agg_14__ser::make,
+      "rnd_prec_01__pari" => rnd_prec_01__pari::make,
+      "rnd_prec_03__ser" => rnd_prec_03__ser::make,
+      "rnd_prec_04__to" => rnd_prec_04__to::make,
+      "rnd_prec_06__par" => rnd_prec_06__par::make,
+      "rnd_prec_07__topar" => rnd_prec_07__topar::make,
+      "rnd_prea_01__pari" => rnd_prea_01__pari::make,
+      "rnd_prea_04__par" => rnd_prea_04__par::make,
+      "rnd_prea_07__ser" => rnd_prea_07__ser::make,
       _ => panic!("no such program variant in this shard: {}", name),
    }
 }
